@@ -332,6 +332,10 @@ func newRig(id string, calls []csmCall, bytesMode bool) (*rig, error) {
 	simMu.Lock()
 	delete(simConns, addr)
 	simMu.Unlock()
+	// a connection-close plugin that reports an error: Close must close the connection nevertheless
+	pc := client.NewPluginContainer()
+	pc.Add(&closeErrPlugin{})
+	r.cl.Plugins = pc
 	r.cl.RegisterServerMessageChan(r.pushCh)
 	for i, c := range calls {
 		rt := &callRT{spec: c, hookRel: make(chan struct{}, 1), entered: make(chan struct{}, 1), exited: make(chan struct{}, 1), done: make(chan *client.Call, 10), ret: make(chan string, 1), seq: -1, phase: "new"}
@@ -340,6 +344,12 @@ func newRig(id string, calls []csmCall, bytesMode bool) (*rig, error) {
 		r.byMethod[fmt.Sprintf("%s/m%d", id, i)] = rt
 	}
 	return r, nil
+}
+
+type closeErrPlugin struct{}
+
+func (closeErrPlugin) ClientConnectionClose(net.Conn) error {
+	return errors.New("the close plugin reports an error")
 }
 
 // global hook dispatch: calls are identified by their (unique) method name
@@ -773,6 +783,10 @@ func (r *rig) exec1(id string, e csmEvent) (bool, error) {
 		return true, nil
 	case "close":
 		r.cl.Close()
+		// Close closes the connection, whatever its close plugins say
+		if !r.conn.isClosed() {
+			r.fail("close-leaves-connection-open", "Client.Close returned but the connection was not closed")
+		}
 		r.closedC = true
 		r.modelEvs = append(r.modelEvs, "close")
 		return true, nil
